@@ -557,7 +557,9 @@ Proof.
            && forallb (fun b => (0 <=? b) && (b <? 256)) pixels
            && forallb (fun v => v <? 2 ^ P) (t81_samples P pixels)
            && forallb (fun t => (0 <=? fst t) && (fst t <=? 3) && t81_table_ok (fst (snd t)) (snd (snd t))) [(0, (bits, vals))]
-           && forallb (fun e => (0 <=? fst e) && (fst e <? 256) && (Z.of_nat (length (snd e)) <? 65534)) [(224, jfif_payload)]) = true).
+           && t81_distinct (map fst [(0, (bits, vals))])
+           && forallb (fun e => (((224 <=? fst e) && (fst e <=? 239)) || (fst e =? 254))
+                                && (Z.of_nat (length (snd e)) <? 65534)) [(224, jfif_payload)]) = true).
   { rewrite !andb_true_iff. repeat match goal with |- _ /\ _ => split end; try (apply Z.leb_le; lia); try (apply Z.ltb_lt; lia).
     - rewrite repeat_length. apply Z.eqb_eq. lia.
     - destruct Hc; subst comps; reflexivity.
@@ -572,6 +574,7 @@ Proof.
       { unfold t81_samples, samples_of. destruct (P <=? 8); [reflexivity | apply le_pairs_le16; assumption]. }
       rewrite Hsamp in Hv. apply (proj1 (Forall_forall _ _) Hs) in Hv. apply Z.ltb_lt. lia.
     - cbn [forallb fst snd]. rewrite Hok. reflexivity.
+    - reflexivity.
     - reflexivity. }
   rewrite Hchk. cbn [negb].
   (* the code words *)
@@ -714,16 +717,19 @@ Proof.
 Qed.
 
 (* ---------- what is not proved: stated ---------- *)
-(* the independent codec is self-consistent, for every choice of its arguments *)
+(* the independent codec is self-consistent, for every choice of its arguments (proved for the
+   configuration of the encoders under test: t81_roundtrip_partial in JllProofsT81Dec) *)
 Definition t81_roundtrip_statement : Prop :=
   forall sel tds tables dht_after extras w h comps P pixels s,
     t81_encode sel tds tables dht_after extras w h comps P pixels = Some s ->
     t81_decode s = Some (pixels, w, h, comps, P).
-(* the library decoders on every stream of the independent encoder *)
+(* the library decoders on every stream of the independent encoder: any assignment of tables
+   0..3 to the components, any valid tables, DHT before or after SOF3, APPn/COM segments in
+   front (proved for one table on every component, DHT after SOF3, APP0 in front:
+   jll_decodes_t81 / sv1_decodes_t81; the rest is exercised by the harness) *)
 Definition jll_decodes_t81_general_statement : Prop :=
   forall sel tds tables dht_after extras w h comps P pixels s,
     comps = 1 \/ comps = 3 ->
     t81_encode sel tds tables dht_after extras w h comps P pixels = Some s ->
     jll_decode s = Ok (pixels, w, h, comps, P) /\
     (sel = 1 -> sv1_decode s = Ok (pixels, w, h, comps, P)).
-
